@@ -17,7 +17,7 @@ UNIT_NOTE = {
 
 CLAIMS = {
     "C01": ("exploration", "reference-model replica monitor over seeded histories on the simulated kernel (runtime monitoring)",
-            "Random multi-peer histories on the real daemon; every fetch's replayed notification stream is compared with a reference model at every quiescent point, on default/tiny/one/wide/odd/roomy table and batch configurations; histories of 40..250 operations plus a few of 2 500 (thorough: 12 000) operations on one daemon, dense runs of the path index, slow subscribers, access groups, bare special values, messages filled to the limit.", "4 C01"),
+            "Random multi-peer histories on the real daemon; every fetch's replayed notification stream is compared with a reference model at every quiescent point, on default/tiny/one/wide/odd/roomy table and batch configurations; histories of 40..250 operations plus a few of 2 500 (thorough: 6 000) operations on one daemon, dense runs of the path index, slow subscribers, access groups, bare special values, messages filled to the limit.", "4 C01"),
     "C02": ("exploration", "JSON-RPC ledger monitor over grammar-generated requests (runtime monitoring)",
             "Every generated request is entered into a ledger keyed by connection and id; responses decoded from the wire are matched online (exactly one, right id, right connection, in order); requesters that stop reading, batches that end in a malformed element, last words in front of the end of a stream, a failing timer disarm.", "4 C02"),
     "C03": ("exploration", "routing-ledger monitor with virtual clock (runtime monitoring)",
